@@ -45,6 +45,9 @@ def withdrawLoop (o : Order) : List Nat → State → Dec → State × Dec × Op
         match workerRelease s o sh with
         | (s, some m) => (s, r, some m)
         | (s, none) => withdrawLoop o t s r
+      else if sh.status = ShardCompleted ∧ sh.orderId < o.id then
+        -- a renewal paid for but not yet started: refund the whole renewed term (the `fix:` of F13)
+        withdrawLoop o t s (r + Dec.mulInt income (toI64 o.duration))
       else if sh.status = ShardWaiting then
         withdrawLoop o t s (r + Dec.mulInt income (toI64 o.duration))
       else withdrawLoop o t s r
